@@ -4,6 +4,7 @@ package asm
 
 import (
 	"fmt"
+	"reflect"
 	"strings"
 )
 
@@ -25,7 +26,7 @@ func include(root map[string]any, at any, args ...any) any {
 	switch v := evalArg(root, at, args[0]).(type) {
 	case []any:
 		for _, m := range v {
-			if m == v1 {
+			if reflect.DeepEqual(m, v1) {
 				return true
 			}
 		}
